@@ -34,7 +34,26 @@ def _case(draw):
         spec2["twist"] = -spec.get("twist", 0.0) if spec.get("twist") else 9.0
     elif var == "look":
         spec2["look"] = draw(st.floats(-60.0, 60.0)) * gen.DEG
+    # partial bullet data: twist given, but the length or the diameter is not (weight stays: its absence is not a "dimension")
+    if spec.get("wdl") and draw(st.integers(0, 5)) == 0:
+        w_, d_, l_ = spec["wdl"]
+        spec["wdl"] = spec2["wdl"] = draw(st.sampled_from([[w_, d_, 0.0], [w_, 0.0, l_], [w_, 0.0, 0.0]]))
+    if draw(st.integers(0, 11)) == 0:
+        spec2["atmo"] = {"kind": "vacuum", "alt": spec["atmo"]["alt"], "t_c": draw(st.floats(-30.0, 40.0))}
+        var = "vacuum"
     cfg = {}
+    if draw(st.integers(0, 9)) == 0:
+        # blown back: a slow, near-vertical launch into a head wind, no velocity floor - the bullet comes down behind the
+        # firing point and the incomplete trajectory has rows at negative distances
+        for s_ in (spec, spec2):
+            s_["mv"] = min(s_["mv"], draw(st.floats(250.0, 700.0)))
+            s_["look"] = 0.0
+            s_["rel"] = draw(st.floats(84.0, 89.8)) * gen.DEG
+            s_["cant"] = 0.0
+            s_["winds"] = [[draw(st.floats(15.0, 90.0)), math.pi + draw(st.floats(-0.5, 0.5)), 1e8]]
+        cfg = {"cMinimumVelocity": 0.0, "cMaximumDrop": -draw(st.floats(50.0, 3000.0))}
+        return {"shots": [spec, spec2], "R": R, "step": R / draw(st.integers(2, 15)), "extra": draw(st.booleans()),
+                "ts": draw(st.sampled_from([0.25, 1.0])), "config": cfg, "var": var, "blown_back": True}
     lim = draw(st.sampled_from(["none", "none", "drop", "velocity", "altitude"]))
     if lim == "drop":
         cfg["cMaximumDrop"] = -draw(st.floats(1.0, 200.0))
@@ -184,19 +203,28 @@ def check(case):
         # angle and speed: difference quotients on a step trace of the no-twist shot
         tr, terr = build.trace(build.calculator(cfg), build.shot(dict(spec, twist=0.0)), min(case["R"], 600.0))
         n = len(tr) - (1 if terr is not None else 0)
-        for i in range(1, n):
-            p, q = tr[i - 1], tr[i]
-            dt = q.t - p.t
-            if dt <= 0:
+        # (the velocity at an integration point points between the chord that arrives there and the chord that leaves it -
+        # whichever of the two the integrator's update makes exact; one more step's rotation is allowed on either side)
+        def _wrap(a):
+            return (a + math.pi) % (2 * math.pi) - math.pi
+        for i in range(1, n - 1):
+            p, q, nx = tr[i - 1], tr[i], tr[i + 1]
+            dt, dt2 = q.t - p.t, nx.t - q.t
+            if dt <= 0 or dt2 <= 0:
                 continue
             dx, dy, dz = q.x - p.x, q.y - p.y, q.w - p.w
-            ang = math.atan2(dy, dx)
-            spd = math.sqrt(dx * dx + dy * dy + dz * dz) / dt
-            if abs(q.angle - ang) > 1e-7:
-                r.bad("C05:angle", f"{tag} trace point {i} (x={q.x!r} ft): angle column {q.angle!r} rad, direction of motion {ang!r}")
+            ex, ey = nx.x - q.x, nx.y - q.y
+            ang_in, ang_out = math.atan2(dy, dx), math.atan2(ey, ex)
+            d_out = _wrap(ang_out - ang_in)
+            d = _wrap(q.angle - ang_in)
+            if not (min(0.0, d_out) - abs(d_out) - 1e-9 <= d <= max(0.0, d_out) + abs(d_out) + 1e-9):
+                r.bad("C05:angle", f"{tag} trace point {i} (x={q.x!r} ft): angle column {q.angle!r} rad, direction of motion into the point "
+                      f"{ang_in!r}, out of it {ang_out!r}")
                 break
-            if abs(q.v - spd) > 1e-7 * spd + 1e-9:
-                r.bad("C05:speed-vs-displacement", f"{tag} trace point {i}: speed column {q.v!r} fps, |displacement|/dt = {spd!r}")
+            spd = math.sqrt(dx * dx + dy * dy + dz * dz) / dt
+            lo_v, hi_v = min(p.v, q.v), max(p.v, q.v)
+            if not (lo_v - (hi_v - lo_v) - 1e-7 * spd - 1e-9 <= spd <= hi_v + (hi_v - lo_v) + 1e-7 * spd + 1e-9):
+                r.bad("C05:speed-vs-displacement", f"{tag} trace point {i}: speed column {p.v!r} -> {q.v!r} fps, |displacement|/dt = {spd!r}")
                 break
         if r.violations:
             break
@@ -215,6 +243,10 @@ def check(case):
                     break
         if r.violations:
             break
+        if any(row.distance.raw_value < 0 for row in rows):
+            r.label("rows-behind-the-firing-point")
+        if spec.get("wdl") and not all(spec["wdl"]):
+            r.label("partial-dimensions")
         ys = [row.height >> D.Foot for row in rows]
         if (spec.get("look") or (max(ys) - min(ys) > 100.0) or has_sd) and len(rows) >= 3:
             nt = True
@@ -234,6 +266,6 @@ def parts(tier):
 MANIFEST = {
     "technique": "Hypothesis-generated shot pairs on one calculator; independent formulas evaluated on every returned row; twist/no-twist differential for spin drift; difference quotients on a step trace for angle and speed",
     "text": "Mach = speed / local speed of sound (2e-5), energy = kinetic energy (1e-3), ogw formula (1e-9), sight-line geometry of target_drop / look_distance / drop_adj / windage_adj (1e-9, zero at the muzzle), "
-            "angle = direction of motion on the step trace (1e-7), windage - no-twist windage = Litz/Miller spin drift (1e-9), absent without twist or dimensions; all row kinds incl. terminal rows; second shot on the same calculator. Exploration level.",
+            "angle = direction of motion on the step trace (between the arriving and the leaving chord, one step's rotation of slack), windage - no-twist windage = Litz/Miller spin drift (1e-9), absent without twist or dimensions; all row kinds incl. terminal rows; second shot on the same calculator. Exploration level.",
     "note": "speed-of-sound oracle is set-valued inside the documented 30-ft shortcut; Miller inputs read from the Atmo object",
 }
